@@ -132,6 +132,12 @@ func (r *seqRun) openBackend() storage.Store {
 	}
 }
 
+// newDisk opens the backend. VERIF_STORESIM_BARE_BATCHES=1 switches the
+// bookkeeping record off (to reproduce the goleveldb stale-read finding).
+func (r *seqRun) newDisk() *Disk {
+	return &Disk{inner: r.openBackend(), Bookkeeping: os.Getenv("VERIF_STORESIM_BARE_BATCHES") == ""}
+}
+
 func (r *seqRun) buildStack(kinds []bool) {
 	r.stack = []*rlayer{{d: dao.NewSimple(r.disk, false)}}
 	r.m.layers = []*layerModel{{m: map[string][]byte{}}}
@@ -214,7 +220,7 @@ func runSeq(p *Plan) (out *sim.Outcome) {
 		r.dir = dir
 		defer os.RemoveAll(dir)
 	}
-	r.disk = &Disk{inner: r.openBackend()}
+	r.disk = r.newDisk()
 	defer func() { _ = r.disk.inner.Close() }()
 	var kinds []bool
 	for _, k := range p.Layers {
@@ -828,7 +834,9 @@ func (r *seqRun) reopen(op Op) *sim.Violation {
 	if err := r.stack[r.top()].d.Store.Close(); err != nil {
 		sim.Harnessf("Close on %s: %v", r.bname, err)
 	}
-	r.disk = &Disk{inner: r.openBackend()}
+	old := r.disk
+	r.disk = r.newDisk()
+	r.disk.nbatch = old.nbatch
 	r.buildStack(kinds)
 	if op.Dirty {
 		r.out.Faults["dirty_reopen"]++
